@@ -31,6 +31,10 @@ type Bucket struct {
 	YieldReads bool
 	// PermuteWalk permutes the order in which Walk reports objects.
 	PermuteWalk bool
+	// NoYield lists paths whose operations pass straight through (used where the
+	// caller holds a sync.Once or mutex that other tasks contend for: parking
+	// there would block them non-durably and hide quiescence from synctest).
+	NoYield func(path string) bool
 	// ReadOnlyFaults: names of fault kinds this bucket honours; nil = all.
 	mu sync.Mutex
 }
@@ -41,6 +45,9 @@ func (b *Bucket) label(path string) string { return b.Name + ":" + path }
 
 // Get implements storage.ReadBucket.
 func (b *Bucket) Get(ctx context.Context, path string) (storage.ReadObjectCloser, error) {
+	if b.NoYield != nil && b.NoYield(path) {
+		return b.U.Get(ctx, path)
+	}
 	d := b.S.Yield(ctx, "get", b.label(path))
 	if err := d.Err("get " + b.label(path)); err != nil {
 		if !d.Dead {
@@ -57,6 +64,9 @@ func (b *Bucket) Get(ctx context.Context, path string) (storage.ReadObjectCloser
 
 // Stat implements storage.ReadBucket.
 func (b *Bucket) Stat(ctx context.Context, path string) (storage.ObjectInfo, error) {
+	if b.NoYield != nil && b.NoYield(path) {
+		return b.U.Stat(ctx, path)
+	}
 	d := b.S.Yield(ctx, "stat", b.label(path))
 	if err := d.Err("stat " + b.label(path)); err != nil {
 		if !d.Dead {
